@@ -315,6 +315,7 @@ class Models:
                     zs.append(A.rterm(a))
                 else:
                     zs.append(A.term(st, a, 64))
+            zs = [z3.simplify(z) for z in zs]
             r = f(*zs)
             if rk == 'u64':
                 st.pc.append(z3.And(r >= 0, r < (1 << 64)))
@@ -328,7 +329,15 @@ class Models:
         a, b = args[0], args[1]
         if A.real:
             if isinstance(a, Fraction) and isinstance(b, Fraction): return int(a == b)
-            d = z3.simplify(A.rterm(a) - A.rterm(b), som=True)
+            x, y = A.rterm(a), A.rterm(b)
+            # own polynomial normal form first: identity of two polynomial expressions is decided without the solver
+            try:
+                from poly import poly_of, poly_sub, poly_is_zero
+                if poly_is_zero(poly_sub(poly_of(x), poly_of(y))):
+                    return 1
+            except Exception:
+                pass
+            d = z3.simplify(x - y, som=True)
             if z3.is_rational_value(d):
                 return int(d.numerator_as_long() == 0)
             return simp_bool(d == 0)
